@@ -194,6 +194,10 @@ class ModelFittingDataTree(ProblemSingleObjective):
                     out_cols=processor.detector.geometry.col,
                     out_readout_times=len(self.readout.times),
                 )
+                self._configure_weights(
+                    weights=weights,
+                    weights_from_file=weights_from_file,
+                )
 
             else:
                 # Get targets from file(s)
